@@ -5,12 +5,13 @@ package main
 
 import (
 	"fmt"
+	"go/types"
 	"regexp"
-
-	"golang.org/x/tools/go/ssa"
 	"sort"
 	"strconv"
 	"strings"
+
+	"golang.org/x/tools/go/ssa"
 )
 
 var anchorPatterns = map[string][]string{
@@ -191,6 +192,16 @@ func ruleE5(p *Program, c *Check, min int) {
 		}
 	}
 	c.Extra["anchors"] = map[string]int{"matched_by_pattern": direct, "added_as_static_callees": len(anchored) - direct}
+	// the struct types whose fields the anchored functions read or write are obligations of the same property (E5-types)
+	usedTypes := map[string]bool{}
+	for _, sp := range pairs {
+		if anchored[sp.Key] {
+			for k := range structTypesUsed(sp.Code) {
+				usedTypes[k] = true
+			}
+		}
+	}
+	c.usedTypes = usedTypes
 	for _, sp := range pairs {
 		if !anchored[sp.Key] {
 			continue
@@ -293,6 +304,62 @@ func staticRefs(f *ssa.Function) []*ssa.Function {
 				seen[anon] = true
 				visit(anon)
 			}
+		}
+	}
+	visit(f)
+	return out
+}
+
+// structTypesUsed: named repository struct types whose fields the function (or its function literals) accesses, builds or
+// receives/returns.
+func structTypesUsed(f *ssa.Function) map[string]bool {
+	out := map[string]bool{}
+	add := func(t types.Type) {
+		for i := 0; i < 3; i++ {
+			switch x := t.(type) {
+			case *types.Pointer:
+				t = x.Elem()
+				continue
+			case *types.Slice:
+				t = x.Elem()
+				continue
+			}
+			break
+		}
+		n, ok := t.(*types.Named)
+		if !ok || n.Obj().Pkg() == nil {
+			return
+		}
+		if _, isStruct := n.Underlying().(*types.Struct); !isStruct {
+			return
+		}
+		out["type:"+n.Obj().Pkg().Name()+"."+n.Obj().Name()] = true
+	}
+	var visit func(fn *ssa.Function)
+	visit = func(fn *ssa.Function) {
+		for _, prm := range fn.Params {
+			add(prm.Type())
+		}
+		res := fn.Signature.Results()
+		for i := 0; i < res.Len(); i++ {
+			add(res.At(i).Type())
+		}
+		for _, b := range fn.Blocks {
+			for _, in := range b.Instrs {
+				switch x := in.(type) {
+				case *ssa.FieldAddr:
+					add(x.X.Type())
+				case *ssa.Field:
+					add(x.X.Type())
+				case *ssa.Alloc:
+					add(x.Type())
+				case *ssa.MakeInterface:
+					add(x.X.Type())
+				}
+			}
+		}
+		for _, anon := range fn.AnonFuncs {
+			visit(anon)
 		}
 	}
 	visit(f)
